@@ -432,6 +432,20 @@ pub fn run(args: &Args) -> i32 {
         }
     }
     tasks.extend(tcp_expiry_tasks(d_all));
+    // short rounds (one receive wait long): a single delayed response already lands in the next
+    // round, where it must not be taken for an answer to that round's probe
+    for cell in all_cells().into_iter().filter(|c| c.privileged && !c.ext) {
+        for topo in ["L3", "silent-target"] {
+            let mut p = TraceParams::default();
+            p.rounds = 3;
+            p.max_ttl = 4;
+            p.min_round = std::time::Duration::from_millis(12);
+            p.max_round = std::time::Duration::from_millis(12);
+            p.grace = std::time::Duration::from_millis(1);
+            p.packet_size = if cell.v6 { 96 } else { 84 };
+            tasks.push(Task { cell, topo, params: p, bound: d_all.min(3) });
+        }
+    }
     if tier == Tier::Thorough {
         // three rounds (carried-over target distance) on the base cells
         for cell in drive::base_cells() {
@@ -563,7 +577,7 @@ pub fn run(args: &Args) -> i32 {
     rep.set("determinism_replays", json!(a.determinism_replays));
     rep.set("rule", json!(format!(
         "56 cells x {} topologies x first_ttl{{1,2}}, {} rounds: ALL executions of the real Builder->Tracer->Strategy->Channel<SimSocket>->codec->State stack with <= d deviations (delay, reorder, duplicate, loss) from the ideal network, d={} (all) / {} (base cells); states = nodes of the choice tree; distinct_nontrivial = distinct published-round digests summed over tasks",
-        TOPOLOGIES.len(), rounds, d_all, d_base) + "; + every tcp cell x {L2,L3,silent-mid,dup} x tcp connect timeout {5,15,25,35} ms (connection attempts expiring in the polls in which younger ones complete)"));
+        TOPOLOGIES.len(), rounds, d_all, d_base) + "; + every privileged cell x {L3, silent-target} with rounds one receive wait long (3 rounds, max_ttl 4: late responses land in the next round); + every tcp cell x {L2,L3,silent-mid,dup} x tcp connect timeout {5,15,25,35} ms (connection attempts expiring in the polls in which younger ones complete)"));
     rep.observe("executions_with_awaited_probe", json!(a.awaited_runs));
     rep.observe("executions_with_reorder", json!(a.reorder_runs));
     rep.observe("executions_with_duplicate", json!(a.dup_runs));
